@@ -241,6 +241,11 @@ class ContentAnalysis(BufferAnalysis):
                 if sigs == {'ENTRY'}:
                     ok = hv[0] is not None
                     self.rec('O5-content', fr, c, 'OK' if ok else 'FAIL(slot content unknown)', '%s %s' % (fl, z.show()))
+                if sigs == {'INIT'}:
+                    # the initial transition is asked of the state that has just been entered last: the current target itself
+                    T = hv[0]
+                    ok = T is not None and z.entails(T[0], '0', -T[1]) and z.entails('0', T[0], T[1])       # d == 0
+                    self.rec('O9-init', fr, c, 'OK' if ok else ('FAIL(not the target)' if T is not None else 'FAIL(not known to be the target)'), '%s %s' % (fl, z.show()))
                 if self.track_source and 'EXIT' in sigs:
                     S = hv[1]
                     ok = S is not None and z.entails(S[0], 'NX', -S[1]) and z.entails('NX', S[0], S[1])       # e(x) == NX
